@@ -134,6 +134,18 @@ fn main() {
             if variant != *alias && !by_alias.contains_key(variant.as_str()) && dict.by_name(&variant).is_some() { complain(format!("by_name({:?}) finds an entry although no keyword is spelled like that", variant), &mut extra_bad); }
         }
     }
+    // the two generic entries that are not rows of the table (private creator, generic group length): what by_tag answers with is an
+    // entry too, so its keyword must be found again, as the same entry
+    for probe in [Tag(0x0009, 0x0010), Tag(0x0029, 0x00FF), Tag(0x0009, 0x0000), Tag(0x0012, 0x0000), Tag(0x7FDF, 0x0000)] {
+        extra_cases += 1;
+        match dict.by_tag(probe) {
+            Some(e) => match dict.by_name(e.alias()) {
+                Some(back) if back.alias() == e.alias() && back.tag_range().inner() == e.tag_range().inner() => {}
+                other => complain(format!("by_tag({}) answers with the entry {:?}, but by_name({:?}) = {:?}", probe, e.alias(), e.alias(), other.map(|x| x.alias())), &mut extra_bad),
+            },
+            None => complain(format!("by_tag({}) finds nothing (private creator / group length rule)", probe), &mut extra_bad),
+        }
+    }
     for (k, t, alias) in table.iter().filter(|r| r.0 == Kind::Single).step_by(7) {
         extra_cases += 1;
         let _ = k;
